@@ -7,7 +7,12 @@ import logging
 import sys
 
 if __name__ == '__main__':
+    import atexit
+    import time
+
     import chk.c01_k3_harness  # noqa: F401
+
+    atexit.register(lambda: sys.stderr.write(f'C01K3_CPU {time.process_time():.2f}\n'))
 
     logging.disable(logging.CRITICAL)
     from crosshair.main import main
